@@ -1,5 +1,6 @@
 """C17 - decompression of JWE plaintext is bounded (E1, exploration around the limit)."""
 import hashlib
+import json
 import tracemalloc
 import zlib
 
@@ -45,11 +46,20 @@ def lengths():
     return [0, 1, 2, 255, 256, 1024, 65536, 131072] + near + [300000, 512000]
 
 
-def h_roundtrip(ctx):
-    cls = ctx.choose("class", ["constant", "period7", "period259", "sha-stream"])
-    enc = ctx.choose("enc", ["A128GCM", "A128CBC-HS256"] + (["XC20P"] if config.thorough() else []))
-    form = ctx.choose("form", ["compact", "flattened"] if not config.thorough() else ["compact", "flattened", "general"])
-    n = ctx.choose("length", lengths() if (cls != "sha-stream" or config.thorough()) else [x for x in lengths() if x % 10 == 0 or 255995 <= x <= 256005])
+def h_small(ctx):
+    """Every length from nothing up to a few stored-block length bytes' worth, compressible and not: the leading octets of the compressed
+    stream (block type, stored length) take every value they can take."""
+    return h_roundtrip(ctx, range(0, 1301 if not config.thorough() else 17001))
+
+
+def h_roundtrip(ctx, small=None):
+    cls = ctx.choose("class", ["constant", "period7", "period259", "sha-stream"] if small is None else ["sha-stream", "period259"])
+    enc = ctx.choose("enc", ["A128GCM", "A128CBC-HS256"] + (["XC20P"] if config.thorough() else []) if small is None else ["A128GCM"])
+    form = ctx.choose("form", (["compact", "flattened"] if not config.thorough() else ["compact", "flattened", "general"]) if small is None else ["compact"])
+    if small is not None:
+        n = ctx.choose("length", small)
+    else:
+        n = ctx.choose("length", lengths() if (cls != "sha-stream" or config.thorough()) else [x for x in lengths() if x % 10 == 0 or 255995 <= x <= 256005])
     scen.register_drafts()
     kind = "oct%d" % ENC[enc][1]
     jwk = scen.key(kind)
@@ -81,7 +91,7 @@ def h_roundtrip(ctx):
             vs.append(viol(f"plaintext over the limit is returned{' silently truncated' if len(got) < n else ''} ({cls})", f"n={n}: returned {len(got)} octets"))
         elif not isinstance(d.exc, ExceededSizeError):
             vs.append(viol(f"plaintext over the limit is not reported as exceeded-size ({cls}, {type(d.exc).__name__})", f"n={n}: {d.exc!r}"))
-    return Outcome(f"{zone}:{'ok' if d.ok else 'rej:' + d.etype}", vs, nontrivial=(cls, enc, form, n))
+    return Outcome(f"{zone}{'' if small is None else ':' + ('compressible' if cls != 'sha-stream' else 'stored')}:{'ok' if d.ok else 'rej:' + d.etype}", vs, nontrivial=(cls, enc, form, n))
 
 
 def stream(kind, n, cls):
@@ -291,15 +301,52 @@ def h_concatenated(ctx):
     return Outcome(f"concat:{'ok:' + str(min(len(d.value[0]), LIMIT + 1) > LIMIT) if d.ok else 'rej:' + d.etype}", vs, nontrivial=(n_streams, each, framing, form))
 
 
+def h_not_compressed(ctx):
+    """An authentic message that was NOT compressed (no zip in its protected header) whose plaintext happens to be a DEFLATE stream - a small
+    one, or one expanding far beyond the limit - with zip=DEF named where nothing authenticates it: nothing is inflated; the recipient gets
+    the octets that were encrypted, or an error."""
+    form = ctx.choose("form", ["flattened", "general"])
+    where = ctx.choose("zip_named_in", ["nowhere", "shared unprotected header", "per-recipient header"])
+    framing = ctx.choose("plaintext_is", ["raw stream", "zlib-framed stream"])
+    n = ctx.choose("which_would_expand_to", [100, 250000, LIMIT + 1, 64 << 20])
+    body = stream("raw" if framing.startswith("raw") else "zlib-default", n, "constant")
+    t = c16.jwe_seed("A128KW", "oct16", "A128GCM", form)
+    if where == "shared unprotected header":
+        t["unprotected"] = {**(t["unprotected"] or {}), "zip": "DEF"}
+    elif where == "per-recipient header":
+        t["recipients"] = [({**(h or {}), "zip": "DEF"}, ek) for h, ek in t["recipients"]]
+    tok = c16.jwe_wire(t, form, body=body)
+    key = A.jkey(scen.key("oct16"), "dict")
+    import gc
+    gc.collect()
+    tracemalloc.start()
+    base = tracemalloc.get_traced_memory()[0]
+    d = scen.jwe_decrypt(tok, key, ["A128KW", "A128GCM", "DEF"])
+    peak = tracemalloc.get_traced_memory()[1] - base
+    tracemalloc.stop()
+    vs = []
+    what = f"{form}, zip=DEF named in {where}, plaintext a {framing} of {len(body)} octets that would expand to {n}"
+    if d.ok and d.value[0] != body:
+        vs.append(viol("a message that was not compressed is inflated on the word of an unauthenticated header", f"{what}: returned {len(d.value[0])} octets, {len(body)} were encrypted"))
+    if not d.ok and where == "nowhere":
+        vs.append(viol("a message that was not compressed, whose plaintext is a DEFLATE stream, is not returned", f"{what}: {d.exc!r}"))
+    bound = 4 * LIMIT + 8 * len(json.dumps(tok)) + (2 << 20)
+    if peak > bound:
+        vs.append(viol("decryption of a message that was not compressed materialises far more than the limit", f"{what}: tracemalloc peak {peak} > bound {bound}"))
+    return Outcome(f"not-compressed:{where.split()[0]}:{'returned' if d.ok else 'rej:' + d.etype}", vs, nontrivial=(form, where, framing, n))
+
+
 _pcs = Part("several-streams-back-to-back", h_concatenated, split_depth=2)
 _pcs.single_bucket_ok = True
 _pa = Part("same-object-serialized-again", h_again, split_depth=2)
 _pa.single_bucket_ok = True
 PARTS = [
+    Part("own-roundtrip-every-small-length", h_small, split_depth=2),
     Part("own-roundtrip", h_roundtrip, split_depth=3, budget={"quick": 1200, "thorough": 1800}),
     Part("foreign-streams", h_foreign, split_depth=3, budget={"quick": 1200, "thorough": 1800}),
     Part("limit-reached-at-input-offsets", h_aligned, split_depth=2, budget={"quick": 1200, "thorough": 1800}),
     _pa,
     Part("decryptions-after-a-rejected-stream", h_after_rejected, split_depth=3),
     _pcs,
+    Part("messages-that-were-not-compressed", h_not_compressed, split_depth=2),
 ]
